@@ -44,7 +44,7 @@ Init == /\ fld \in {FieldOf(ch) : ch \in [Free -> 0..VMax]}
 NextCell == CellOfRank(last + 1)
 NextPatch == RefPatch(P, NextCell, dir)
 SweepStep == /\ phase = "sweep" /\ last < NCells - 1
-             /\ ProcessCell(P, IdOn(VertsOf(NextPatch)), NextCell, NextPatch)
+             /\ ProcessCell(P, NextCell, NextPatch)
              /\ mesh' = mesh \o NextPatch
              /\ UNCHANGED <<fld, dir, phase>>
 Finish == /\ phase = "sweep" /\ last = NCells - 1
@@ -58,8 +58,8 @@ InvExactGrid == ExactGrid(P)
 InvProgress == (phase = "sweep" /\ last < NCells - 1) =>
                  /\ PatchLocal(P, IdOn(VertsOf(NextPatch)), NextCell, NextPatch)
                  /\ CanProcess(P, NextCell, NextPatch)
-InvSweep == SweepInv /\ DeadlinesRight(P, V) /\ \A e \in bnd : OpenEdgeOK(P, V, e, last)
-InvBndSeen == {<<e[1], e[2]>> : e \in bnd} = {e \in seen : <<e[2], e[1]>> \notin seen}
+InvSweep == SweepInv(P, V)
+InvBndSeen == bnd = {e \in seen : <<e[2], e[1]>> \notin seen}
 InvClosed == phase = "done" => (SweepClosed /\ seen = DirEdges(mesh) /\ ClosedManifold(VertsOf(mesh), mesh))
 InvOnLevel == phase = "done" => (OnLevel(P, V) /\ EdgeCover(P, V))
 InvOriented == (phase = "done" /\ mesh # <<>> /\ LevelSetInside(P)) => Oriented(P, V, mesh, dir, FALSE)
